@@ -1,6 +1,7 @@
 SPECIFICATION MSpec
 CONSTANTS
   Replica = {"A", "B"}
+  Remote = {"origin"}
   NBug = 2
   Author = {"u1", "u2"}
   MaxHop = 1000000
